@@ -195,6 +195,14 @@ func mkResponse(k t_api.Kind, s t_api.StatusCode, shape int) *t_api.Response {
 		if full {
 			x.RootPromise, x.LeafPromise, x.LeafPromiseHref = mkPromise(true), mkPromise(false), "http://r/promises/q"
 		}
+		if shape >= 2 {
+			x.Task, x.RootPromiseHref, x.LeafPromiseHref = mkTask(true), "http://r/promises/p/1", "http://r/promises/q"
+			if shape == 2 {
+				x.LeafPromise = mkPromise(false)
+			} else {
+				x.RootPromise = mkPromise(true)
+			}
+		}
 		r.ClaimTask = x
 	case t_api.CompleteTask:
 		x := &t_api.CompleteTaskResponse{Status: s}
@@ -686,6 +694,11 @@ func enumerate(statuses []int) []caseT {
 				// for errors the shape is the cause: 0 = wrapped cause (store / router / echo failures),
 				// 1 = no cause (queue-full and shutting-down errors are created with a nil cause)
 				shapes := []int{0, 1}
+				if f == "resp" && strings.HasPrefix(ep.name, "ClaimTask") {
+					// a claimed resume task whose root (2) or leaf (3) promise the kernel could not attach: a registration may
+					// name a root promise that does not exist
+					shapes = []int{0, 1, 2, 3}
+				}
 				for _, sh := range shapes {
 					for _, p := range []string{"http", "grpc"} {
 						cs = append(cs, caseT{Ep: ep.name, Status: s, Form: f, Shape: sh, Proto: p})
